@@ -19,19 +19,28 @@ def slotVal (s : Sig) (args : List Nat) (kw : KW) (i : Nat) (p : String) : Optio
 def kwonlyVal (kw : KW) (i : Nat) (k : String) (hasD : Bool) : Option ArgVal :=
   if kw.has k then some (.given ((kw.get k).getD 0)) else if hasD then some (.kwdflt i) else none
 
-/-- all-or-nothing list traversal with the index -/
-def mapIdx? {α β} (f : Nat → α → Option β) : Nat → List α → Option (List β)
+/-- values of the positional parameters from index `i` on; all-or-nothing -/
+def posSlots (s : Sig) (args : List Nat) (kw : KW) : Nat → List String → Option (List (String × ArgVal))
   | _, [] => some []
-  | i, a :: as => match f i a, mapIdx? f (i + 1) as with
-    | some b, some bs => some (b :: bs)
+  | i, p :: ps => match slotVal s args kw i p, posSlots s args kw (i + 1) ps with
+    | some v, some r => some ((p, v) :: r)
+    | _, _ => none
+
+def kwoSlots (kw : KW) : Nat → List (String × Bool) → Option (List (String × ArgVal))
+  | _, [] => some []
+  | i, (k, d) :: ks => match kwonlyVal kw i k d, kwoSlots kw (i + 1) ks with
+    | some v, some r => some ((k, v) :: r)
     | _, _ => none
 
 /-- names that keywords may bind: positional-or-keyword and keyword-only parameters -/
 def kwNames (s : Sig) : List String := s.args ++ s.kwonly.map (·.1)
 
 /-- a positional-or-keyword parameter filled positionally AND by keyword -/
-def multiple (s : Sig) (args : List Nat) (kw : KW) : Bool :=
-  (s.args.zipIdx).any fun (p, j) => s.posonly.length + j < args.length && kw.has p
+def multipleFrom (args : List Nat) (kw : KW) : Nat → List String → Bool
+  | _, [] => false
+  | i, p :: ps => (decide (i < args.length) && kw.has p) || multipleFrom args kw (i + 1) ps
+
+def multiple (s : Sig) (args : List Nat) (kw : KW) : Bool := multipleFrom args kw s.posonly.length s.args
 
 def bind (s : Sig) (args : List Nat) (kw : KW) : Option Bound :=
   let extras := kw.filter fun p => !(kwNames s).contains p.1
@@ -39,8 +48,7 @@ def bind (s : Sig) (args : List Nat) (kw : KW) : Option Bound :=
   else if !s.kwarg && !extras.isEmpty then none
   else if !s.vararg && args.length > s.params.length then none
   else
-    match mapIdx? (fun i p => (slotVal s args kw i p).map fun v => (p, v)) 0 s.params,
-          mapIdx? (fun i (k : String × Bool) => (kwonlyVal kw i k.1 k.2).map fun v => (k.1, v)) 0 s.kwonly with
+    match posSlots s args kw 0 s.params, kwoSlots kw 0 s.kwonly with
     | some a, some b =>
       some { slots := a ++ b,
              var := if s.vararg then some (args.drop s.params.length) else none,
